@@ -576,7 +576,7 @@ fn gen_ranges(g: &mut Gen) {
 }
 
 fn gen_nested(g: &mut Gen) {
-    let rounds = if g.thorough { 3000 } else { 500 };
+    let rounds = if g.thorough { 20000 } else { 800 };
     for _ in 0..rounds {
         let (rows, cols) = (g.rng.range(1, 4), g.rng.range(1, 5));
         g.op(format!("@ matrix {} {}", rows, cols));
@@ -696,7 +696,7 @@ fn gen_partitions(g: &mut Gen) {
         }
     }
     // sampled ascending lists for the larger sizes
-    let rounds = if g.thorough { 600 } else { 120 };
+    let rounds = if g.thorough { 4000 } else { 150 };
     for _ in 0..rounds {
         let (rows, cols) = (g.rng.range(1, 4), g.rng.range(1, 5));
         let rps = sublists(rows);
@@ -725,7 +725,7 @@ fn gen_partitions(g: &mut Gen) {
         gen_partition_case(g, 4, 5, &rp, &cp, valid);
     }
     // random, mostly malformed lists
-    let rounds = if g.thorough { 400 } else { 100 };
+    let rounds = if g.thorough { 4000 } else { 150 };
     for _ in 0..rounds {
         let (rows, cols) = (g.rng.range(1, 4), g.rng.range(1, 5));
         let mk = |g: &mut Gen, n: usize| -> Vec<usize> {
